@@ -385,7 +385,7 @@ func runC09(c *Check) {
 			}
 		}
 		c.Min("R5", "appends of fetched headers in GetHeaders", len(appends), 1)
-		maxCount := paramNamed(fn, "maxCount")
+		maxCount := paramAt(fn, "maxCount", 3)
 		for _, ap := range appends {
 			if maxCount == nil {
 				c.Undecided("R5", "anchor:GetHeaders.maxCount", fn.Pos(), "count parameter not found")
@@ -454,7 +454,7 @@ func runC09(c *Check) {
 		if fn == nil {
 			continue
 		}
-		hp := paramNamed(fn, "height")
+		hp := paramAt(fn, "height", 2)
 		if hp == nil {
 			c.Undecided("R6", "anchor:"+spec.fn+".height", fn.Pos(), "height parameter not found")
 			continue
